@@ -96,7 +96,7 @@ Theorem C20_location_absolute_path_evicted_partial : forall rq rp s a p m,
   no_nul (SLASH :: p) = true ->
   rp_location rp = Some (SLASH :: p) \/ rp_content_location rp = Some (SLASH :: p) ->
   In m (cacheable_ids pg_methods) ->
-  In (m, s ++ SEP ++ a ++ uri_encode pg_PathChars (SLASH :: p)) (evicted_keys rq rp).
+  In (m, s ++ SEP ++ a ++ uri_encode pg_AbsPathChars (SLASH :: p)) (evicted_keys rq rp).
 Proof. exact location_absolute_path_evicted. Qed.
 Print Assumptions C20_location_absolute_path_evicted_partial.
 
@@ -105,7 +105,7 @@ Print Assumptions C20_location_absolute_path_evicted_partial.
 Theorem C20_absolute_path_reference_in_normal_form_partial : forall rq rp s a p m,
   wf_request rq s a -> purges_others (rq_method rq) = true -> rp_status rp < 400 ->
   (hd0 p =? SLASH) = false -> strip_fragment (SLASH :: p) = SLASH :: p -> remove_dot_segments (SLASH :: p) = SLASH :: p ->
-  forallb pg_PathChars (SLASH :: p) = true ->
+  forallb pg_AbsPathChars (SLASH :: p) = true ->
   rp_location rp = Some (SLASH :: p) \/ rp_content_location rp = Some (SLASH :: p) ->
   In m (cacheable_ids pg_methods) ->
   names_same_authority s a (uri_path (rq_url rq)) (SLASH :: p) (s ++ SEP ++ a ++ SLASH :: p) /\
@@ -132,7 +132,7 @@ Theorem C20_location_relative_path_evicted_partial : forall rq rp s a d seg h m,
   u_path (rq_url rq) = d ++ SLASH :: seg -> no_byte SLASH seg = true ->
   rp_location rp = Some h \/ rp_content_location rp = Some h ->
   In m (cacheable_ids pg_methods) ->
-  In (m, s ++ SEP ++ a ++ uri_encode pg_PathChars (d ++ SLASH :: h)) (evicted_keys rq rp).
+  In (m, s ++ SEP ++ a ++ uri_encode pg_AbsPathChars (d ++ SLASH :: h)) (evicted_keys rq rp).
 Proof. exact location_relative_path_evicted. Qed.
 Print Assumptions C20_location_relative_path_evicted_partial.
 
@@ -142,7 +142,7 @@ Theorem C20_relative_path_reference_in_normal_form_partial : forall rq rp s a d 
   u_path (rq_url rq) = d ++ SLASH :: seg -> no_byte SLASH seg = true ->
   h <> [] -> (hd0 h =? SLASH) = false -> url_is_relative h = true ->
   strip_fragment h = h -> remove_dot_segments (d ++ SLASH :: h) = d ++ SLASH :: h ->
-  forallb pg_PathChars (d ++ SLASH :: h) = true ->
+  forallb pg_AbsPathChars (d ++ SLASH :: h) = true ->
   rp_location rp = Some h \/ rp_content_location rp = Some h ->
   In m (cacheable_ids pg_methods) ->
   names_same_authority s a (uri_path (rq_url rq)) h (s ++ SEP ++ a ++ d ++ SLASH :: h) /\
@@ -207,6 +207,12 @@ Theorem C20_add_relative_path_clears_caches : forall u rel,
 Proof. exact add_relative_path_clears_caches. Qed.
 Print Assumptions C20_add_relative_path_clears_caches.
 
+(* the bytes absolutePath() leaves verbatim: PathChars plus the query delimiter (path_ holds path and query) *)
+Theorem C20_absolute_path_keeps_path_chars_and_query_delimiter : forall c,
+  c < 256 -> pg_AbsPathChars c = pg_PathChars c || (c =? 63).
+Proof. exact abs_path_chars_spec. Qed.
+Print Assumptions C20_absolute_path_keeps_path_chars_and_query_delimiter.
+
 (* absolute() returns the same text when asked again, whatever the caches held *)
 Theorem C20_effective_request_uri_stable : forall rq,
   effective_request_uri (snd (effective_request_uri rq)) = effective_request_uri rq.
@@ -231,7 +237,7 @@ Example C20_ex_spec_resolves_plain_references :
 Proof. exact spec_examples. Qed.
 Example C20_ex_normal_form_hypotheses :
   strip_fragment (B [47;100;47;118]) = B [47;100;47;118] /\ remove_dot_segments (B [47;100;47;118]) = B [47;100;47;118] /\
-  forallb pg_PathChars (B [47;100;47;118]) = true /\ map lower w_http = w_http /\ map lower w_auth = w_auth /\
+  forallb pg_AbsPathChars (B [47;100;47;118]) = true /\ map lower w_http = w_http /\ map lower w_auth = w_auth /\
   u_path (rq_url w_rq) = B [47;100] ++ SLASH :: B [117] /\ url_is_relative (B [118]) = true /\ strip_fragment (B [118]) = B [118].
 Proof. exact normal_form_examples. Qed.
 Example C20_ex_plain_forms_are_evicted :
